@@ -111,3 +111,58 @@ func verifC14TSDReach() {
 	verifObserve("tsd", b.start, b.present[0], b.present[1], b.vals[0], b.vals[1], len(data), ok, math.Float64bits(f))
 	verifAssert(len(data) != 21, "reach")
 }
+
+// multi-field stream: two field blocks (without their own time header) behind one slot range; the
+// stream reader hands out each field id with a decoder positioned on that field's block, also when
+// the previous field was read only partially (the reader reuses one pooled decoder).
+func verifC14TSDStream() {
+	b1 := verifMakeBlock("b1", 2)
+	b2 := verifMakeBlock("b2", 2)
+	b2.start = b1.start
+	f1 := uint16(verifNondetUint64("f1"))
+	f2 := uint16(verifNondetUint64("f2"))
+	partial := verifNondetBool("partialReadOfFirstField")
+	enc := GetTSDEncoder(b1.start)
+	verifEncodeBlock(enc, b1)
+	d1, err := enc.BytesWithoutTime()
+	verifAssert(err == nil, "encoder reports no error")
+	d1 = append([]byte{}, d1...)
+	enc.RestWithStartTime(b2.start)
+	verifEncodeBlock(enc, b2)
+	d2, err := enc.BytesWithoutTime()
+	verifAssert(err == nil, "encoder reports no error")
+	d2 = append([]byte{}, d2...)
+	ReleaseTSDEncoder(enc)
+	w := NewTSDStreamWriter(b1.start, b1.start+1)
+	w.WriteField(f1, d1)
+	w.WriteField(f2, d2)
+	data, err := w.Bytes()
+	verifAssert(err == nil, "stream writer reports no error")
+	r := NewTSDStreamReader(data)
+	s, e := r.TimeRange()
+	verifAssert(s == b1.start && e == b1.start+1, "stream slot range survives")
+	verifAssert(r.HasNext(), "first field present")
+	id, dec := r.Next()
+	verifAssert(id == f1, "first field id survives")
+	if partial {
+		verifAssert(dec.Next(), "decoder has the slot")
+		has := dec.HasValue()
+		verifAssert(has == b1.present[0], "presence bit survives")
+		if has {
+			verifAssert(dec.Value() == b1.vals[0], "value bits survive")
+		}
+	} else {
+		verifCheckSequential(dec, b1)
+	}
+	verifAssert(r.HasNext(), "second field present")
+	id, dec = r.Next()
+	verifAssert(id == f2, "second field id survives")
+	if verifNondetBool("addressed") {
+		verifCheckAddressed(dec, b2)
+	} else {
+		verifCheckSequential(dec, b2)
+	}
+	verifAssert(!r.HasNext(), "no third field")
+	r.Close()
+	verifReach("end")
+}
